@@ -48,7 +48,7 @@ Init == /\ expect = [t |-> "none"]
              /\ Len(N) >= MinOrder(op)
              /\ (g # "none" => HasGuess(op))
              /\ (g = "zero" => op \in ProductOps \cup SolveOps \cup {"elementwise_divide", "elementwise_divide_c"})
-             /\ (g \in {"exact1", "exact2"} => op \in ProductOps /\ sc = "unit" /\ be = "py")
+             /\ (g \in {"exact1", "exact2"} => op \in ProductOps /\ sc = "unit")
              /\ (cx => ComplexOK(op))
              /\ (be = "cpp" => op \in {"fast_matvec", "amen_solve"} /\ ~cx)
              /\ (data = "decay" => op \in ProductOps \cup SolveOps)
